@@ -524,7 +524,8 @@ def stepRun (σ0 : St) (t : Nat) (inp : Nat) : Obs × St :=
   | .g1 m h tl =>
       let o := mkObs σ0 t .load .readers .acq (res := σ0.cur)
       let grp := σ0.groups σ0.cur
-      if grp.length = 0 then (o, σ.goto t (.g3 m h tl σ0.cur (some 0)))
+      -- no stream left: the ring counts as full, not as empty (F12)
+      if grp.length = 0 then (o, σ.goto t (.g3 m h tl σ0.cur (some N)))
       else (o, σ.goto t (.g2 m h tl σ0.cur 0 0))
   | .g2 m h tl p i md =>
       let grp := σ0.groups p
